@@ -99,9 +99,11 @@ pub struct Ctx<'a> {
     /// number of frames of the model sequence that recovery must apply: all of them without a
     /// fault; with a fault, the frames that lie entirely before the first damaged byte
     pub k_exp: usize,
-    /// A second acceptable outcome: all frames of this sequence applied. Used for a pure
-    /// truncation of a closed segment, where "the frames that are completely present" (the
-    /// shortened segment plus all later segments) is as defensible as the strict prefix.
+    /// A second acceptable outcome: all frames of this sequence applied. Used for faults that
+    /// leave a closed (non-last) segment as "valid frames followed by end-of-file or zero bytes"
+    /// (cut, zero-fill from a frame boundary, zero extension): no reader can tell lost frames
+    /// from frames that never existed there, so stopping after that segment's valid frames and
+    /// continuing with the next segment are both accepted.
     pub alt: Option<Vec<(u64, usize, MFrame)>>,
 }
 
@@ -412,6 +414,7 @@ pub fn expected_prefix(model: &Model, fault: &Fault) -> usize {
 // ---------------------------------------------------------------------------------------------
 
 pub struct Acc {
+    pub pool: exec::StoragePool,
     pub out: RunOutcome,
     pub seen_sig: BTreeSet<String>,
     pub h: u64,
@@ -420,7 +423,7 @@ pub struct Acc {
 
 impl Acc {
     pub fn new() -> Acc {
-        Acc { out: RunOutcome::default(), seen_sig: BTreeSet::new(), h: 0x5157, combos: BTreeSet::new() }
+        Acc { pool: exec::StoragePool::default(), out: RunOutcome::default(), seen_sig: BTreeSet::new(), h: 0x5157, combos: BTreeSet::new() }
     }
     pub fn push(&mut self, p: Proto, case: &CaseSpec) {
         let v = Violation {
@@ -435,7 +438,7 @@ impl Acc {
             self.out.violations.push(v);
         }
     }
-    fn note_recovered(&mut self, rec: &Recovered) {
+    pub fn note_recovered(&mut self, rec: &Recovered) {
         if rec.open_err.is_some() {
             self.out.count("wal_open_err", 1);
         }
@@ -568,7 +571,7 @@ pub fn run_history(spec: &CaseSpec, root: &Path, acc: &mut Acc, report: bool) ->
         }
         for init in inits {
             let plan = RecoverPlan { init_pages: init, for_files: (0..NFILES).collect(), replay_files: (0..NFILES).collect(), read_pages: init == 8 };
-            let rec = exec::recover_dir(&wal_dir, &root.join("st"), &plan)?;
+            let rec = exec::recover_dir(&wal_dir, &root.join("st"), &plan, &mut acc.pool)?;
             acc.note_recovered(&rec);
             let ctx = Ctx { model: &ex.model, seq: &seq, init_pages: init, fault: None, k_exp: seq.len(), alt: None };
             protos.extend(check_recovered(&ctx, &rec, true));
@@ -607,14 +610,21 @@ pub fn run_fault(spec: &CaseSpec, hr: &HistoryRun, fault: &Fault, root: &Path, a
     let seq = hr.ex.model.sequence();
     let k_exp = expected_prefix(&hr.ex.model, fault);
     let last_seg = hr.ex.model.segs.keys().next_back().copied().unwrap_or(1);
+    // In a closed segment, "valid frames followed by nothing / by zero bytes" looks the same on
+    // disk whether frames were lost or never existed, so both readings are accepted there: stop
+    // at the end of that segment's valid frames, or carry on with the next segment.
     let alt = match fault {
         Fault::Cut { seg, frame, .. } if *seg != last_seg => {
             Some(seq.iter().filter(|(s, i, _)| !(*s == *seg && *i as u64 >= *frame)).cloned().collect::<Vec<_>>())
         }
+        Fault::Zerofill { seg, frame, delta: 0 } if *seg != last_seg => {
+            Some(seq.iter().filter(|(s, i, _)| !(*s == *seg && *i as u64 >= *frame)).cloned().collect::<Vec<_>>())
+        }
+        Fault::Extend { seg, .. } if *seg != last_seg => Some(seq.iter().filter(|(s, _, _)| *s <= *seg).cloned().collect::<Vec<_>>()),
         _ => None,
     };
     let plan = RecoverPlan { init_pages: spec.init_pages, for_files: spec.for_files.clone(), replay_files: spec.replay_files.clone(), read_pages: spec.read_pages };
-    let rec = exec::recover_dir(&dst, &root.join("st"), &plan)?;
+    let rec = exec::recover_dir(&dst, &root.join("st"), &plan, &mut acc.pool)?;
     acc.note_recovered(&rec);
     let ctx = Ctx { model: &hr.ex.model, seq: &seq, init_pages: spec.init_pages, fault: Some(fault), k_exp, alt };
     let protos = check_recovered(&ctx, &rec, false);
@@ -648,6 +658,9 @@ fn finish(mut acc: Acc, hr: Option<&HistoryRun>, spec: &CaseSpec, n_faults: u64)
     if let Some(hr) = hr {
         let m = &hr.ex.model;
         acc.out.count("histories", 1);
+        for k in ["recoveries_ok", "recoveries_err", "recoveries_panicked", "wal_open_err", "faults_applied"] {
+            acc.out.count(k, 0);
+        }
         acc.out.count("ops", spec.ops.len() as u64);
         acc.out.count("frames_written", m.n_frames_written);
         acc.out.count("rotations", m.n_rotate);
@@ -681,7 +694,7 @@ pub fn run_spec_seeded(seed: u64, run: u64, tier: Tier) -> RunOutcome {
     let s = mix(seed, run);
     simdisk::install_clock_entropy(s);
     exec::install_panic_hook();
-    let mut rng = Rng::new(s);
+    let rng = Rng::new(s);
     let mut grng = rng.fork("history");
     let (start, ops) = gen_history(&mut grng, tier);
     let root = simcore::pool::child_scratch().join("walsim");
@@ -753,7 +766,7 @@ pub fn run_spec_case(case: &Value) -> RunOutcome {
     let _ = std::fs::create_dir_all(&root);
     let mut acc = Acc::new();
     if let Some(sel) = &spec.crash {
-        if let Err(e) = crate::crash::run_crash_points(&spec, &root, s, &mut acc, Some(sel)) {
+        if let Err(e) = crate::crash::run_crash_points(&spec, &root, sel.seed, &mut acc, Some(sel)) {
             acc.out.harness_error = Some(e);
         }
         return finish(acc, None, &spec, 0);
@@ -871,7 +884,15 @@ pub fn shrink_case(case: &Value) -> Vec<Value> {
         c.read_pages = false;
         out.push(c);
     }
-    out.into_iter().filter_map(|c| serde_json::to_value(&c).ok()).collect()
+    out.into_iter()
+        .filter_map(|mut c| {
+            // crash cases: dropping operations renumbers the crash points
+            if let Some(cr) = c.crash.as_mut() {
+                cr.ordinal = None;
+            }
+            serde_json::to_value(&c).ok()
+        })
+        .collect()
 }
 
 impl Engine for WalSim {
